@@ -181,6 +181,13 @@ def _component(pid, tier, seed, drv, tracespec, model, model_cfgs, name, crash_c
         out["states"] += dist; out["transitions"] += gen
         inv = re.findall(r"Invariant (\w+) is violated", o2)
         for (where, cl) in _viol_lines(o2): items.append((cl, "trace", "event %s of %s" % (where, res)))
+        devs = [l.strip().strip('"').split() for l in o2.splitlines() if l.strip().strip('"').startswith("DEV ")]
+        if devs:
+            kinds = {}
+            for dv in devs: kinds[dv[2]] = kinds.get(dv[2], 0) + 1
+            for k, n in sorted(kinds.items()):
+                log("CONFORMANCE-DEVIATION property=%s component=%s what=%s count=%d (the real component no longer takes the steps of %s; not a violation by itself)" % (pid, drv, k, n, model))
+            out["deviations"] = kinds
         for iv in inv: items.append(("%s_i_%s" % (pid, iv), "trace", "specification invariant %s violated on the recorded trace %s" % (iv, res)))
         if not inv and ("REJECTED" in o2 or rc2 != 0 or gen == 0):
             raise CheckError("%s did not consume the trace: %s" % (tracespec, o2[-2000:]))
